@@ -24,7 +24,7 @@ if "--write" in sys.argv:
     a = s.index("### 11.6 Seeded changes")
     b = s.index("### 11.7 Harmless refactors")
     head = s[a:].split("\n", 1)[0]
-    s = s[:a] + head + "\n\nEvery change below was produced by a fresh sub-agent that saw only the property text and a scratch worktree.  I confirmed each one\n(existing suite passes, the agent's demonstration fails with the change and passes without it) and then ran the checks with\n`VERIF_REPO` pointing at the changed tree (tools/seedtest.py); patch, demonstration and the full record are in `seeded/<name>/`.\n\n" + table + "\n\n" + s[b:]
+    s = s[:a] + head + "\n\nEvery change below was produced by a fresh sub-agent that saw only the property text and a scratch worktree (rounds 1 and 2: names\n`-A`, `-B`).  In round 3 (names `-C`, `-D`) the agents were additionally told which source areas of /repo to aim at - the areas brought\nunder contract since round 2 - still without anything from /verif.  I confirmed each one\n(existing suite passes, the agent's demonstration fails with the change and passes without it) and then ran the checks with\n`VERIF_REPO` pointing at the changed tree (tools/seedtest.py); patch, demonstration and the full record are in `seeded/<name>/`.\n\n" + table + "\n\n" + s[b:]
     open(p, "w").write(s)
 else:
     print(table)
